@@ -51,6 +51,13 @@ def ofErr : Err → BErr
   | .kafka c => .kafka c
   | _ => .other
 
+/-- the error as the failing call itself returns it (only `batch.err`, the sticky copy, goes through dontExpectEOF) -/
+def rawErr : Err → BErr
+  | .eof => .eof
+  | .unexpectedEOF => .unexpectedEOF
+  | .kafka c => .kafka c
+  | _ => .other
+
 /-- `checkTimeoutErr(deadline)` -/
 def timeoutErr (expired : Bool) : BErr := if expired then .kafka 7 else .eof
 
@@ -124,9 +131,9 @@ def batchReadMessage {β : Type} (expired : Bool) (fuel : Nat) (kcb : Int → R 
       | (.error .shortRead, rs') =>
         -- err = batch.msgs.discard()
         (match discardN rs'.sz rs' with
-         | (.error e, rs'') => (.error (ofErr e), { b with rs := rs'', pending := none, err := some (ofErr e) })
+         | (.error e, rs'') => (.error (rawErr e), { b with rs := rs'', pending := none, err := some (ofErr e) })
          | (.ok _, rs'') => (.error (timeoutErr expired), { b with rs := rs'', pending := none, err := some (timeoutErr expired) }))
-      | (.error e, rs') => (.error (ofErr e), { b with rs := rs', pending := none, err := some (ofErr e) })
+      | (.error e, rs') => (.error (rawErr e), { b with rs := rs', pending := none, err := some (ofErr e) })
 
 inductive Op
   | readMessage
